@@ -39,7 +39,8 @@ def on_prog(p, idx, label, prog, meta):
         runner.violation(p, idx, "run-" + rr.outcome, label, "run did not return %r" % (rr.exc,), dict(text=text))
         return
     p.states += len(rr.ticks)
-    probs = monitors.mon_clocks(prog, rr, framer_names=meta["clocked"]) if meta["clocked"] else []
+    mprog = lang.desugar(prog) if any(fm.get("schedule") == "moot" for fm in prog["framers"]) else prog
+    probs = monitors.mon_clocks(mprog, rr, framer_names=meta["clocked"]) if meta["clocked"] else []
     if probs:
         g, d = probs[0]
         runner.violation(p, idx, g, label, d, dict(text=text, tick=meta["tick"], T=meta["T"], N=meta["N"]))
